@@ -21,6 +21,8 @@ fn op_list() -> Vec<String> {
     // sponge sequences (absorb / squeeze interleavings, empty absorbs) in a circuit built on PoseidonChip
     v.push("sp.poseidon".into());
     v.push("sp.poseidon".into());
+    // variable-length SHA-256 over a vector of capacity 128 (honest executions only)
+    v.push("vh.sha256".into());
     crate::ops::dev_filter(v)
 }
 
@@ -66,7 +68,10 @@ impl Check for C07 {
                 }
             }
         };
-        opcheck::to_json(&Scn { case, fault_seed: rng.u64(), n_plans, only: None, only_late: None })
+        // the variable-length gadget's input vector cannot be published from outside the crate:
+        // no Byzantine stage for it (there would be nothing to judge an accepted execution by)
+        let honest_only = op.starts_with("vh.");
+        opcheck::to_json(&Scn { case, fault_seed: rng.u64(), n_plans, only: honest_only.then(Vec::new), only_late: honest_only.then(Vec::new) })
     }
     fn execute(&self, scn: &Value, st: &mut Stats) -> Verdict {
         let s: Scn = match serde_json::from_value(scn.clone()) {
